@@ -529,8 +529,9 @@ func resolveSvc(r *core.Run, rule string) *svcAnchors {
 		}
 		return false
 	})
+	// closeFn: the method that closes the service connection (a private helper of Shutdown, or Shutdown itself)
 	a.Close = one("closeFn", func(fn *ssa.Function) bool {
-		if fn.Object() == nil || fn.Object().Exported() {
+		if fn.Object() == nil {
 			return false
 		}
 		for _, c := range core.Calls(fn) {
